@@ -14,8 +14,9 @@ typedef struct RuleEntry RuleEntry;
 typedef struct State { const RuleEntry *rules, *rules_end; } State;
 typedef struct Rules Rules;
 typedef struct FiniteStateMachine { SlotMap *slots_; Rules *rules_; } FiniteStateMachine;
-typedef struct Pass { uint16 *m_cols, *m_startStates, *m_transitions; State *m_states;
-                      uint16 m_numGlyphs, m_numStates, m_numTransition, m_successStart, m_numColumns; byte m_minPreCtxt, m_maxPreCtxt; } Pass;
+typedef struct Pass {
+/*@extract {'kind':'members', 'file':'src/inc/Pass.h', 'scope': r'class Pass\s*\{', 'names':['m_cols','m_startStates','m_transitions','m_states','m_numGlyphs','m_numStates','m_numTransition','m_successStart','m_numColumns','m_minPreCtxt','m_maxPreCtxt']}@*/
+} Pass;
 enum { MAX_SLOTS = 64 };
 #define SlotMap__MAX_SLOTS MAX_SLOTS
 const Pass *g_pass;
